@@ -267,42 +267,16 @@ def check_shared_prefix_sign(run, ix):
         p = getattr(p, '_parent', None)
     holder = p._parent.orelse if p is not None else []
     plain_if = p._parent if p is not None else None
-    minmax = [x for st in holder for x in ast.walk(st) if isinstance(x, ast.Call) and
-              norm(x.func) in ('min', 'max', 'mpf_min_max', 'MIN', 'MAX')]
-    CMP = {'mpf_gt': 1, 'mpf_ge': 1, 'mpf_lt': -1, 'mpf_le': -1}
-    ordered = None
-    for st in holder:
-        for x in ast.walk(st):
-            if not (isinstance(x, ast.If) and isinstance(x.test, ast.Call) and norm(x.test.func) in CMP
-                    and len(x.test.args) == 2):
-                continue
-            conv = []
-            for a in x.test.args:
-                if isinstance(a, ast.Call) and norm(a.func) == 'from_str' and a.args and isinstance(a.args[0], ast.Name):
-                    conv.append((a.args[0].id, norm(a.args[2]) if len(a.args) > 2 else None))
-            swaps = [y for y in x.body if isinstance(y, ast.Assign) and isinstance(y.targets[0], ast.Tuple)
-                     and isinstance(y.value, ast.Tuple)
-                     and [norm(e) for e in y.targets[0].elts] == [norm(e) for e in reversed(y.value.elts)]]
-            if len(conv) != 2 or not swaps or conv[0][1] != conv[1][1]:
-                continue
-            lo, up = [norm(e) for e in swaps[0].targets[0].elts]
-            names = [c[0] for c in conv]
-            want = [lo, up] if CMP[norm(x.test.func)] == 1 else [up, lo]
-            # swap exactly when the text used as lower endpoint converts to the larger value
-            in_test = {id(c) for c in ast.walk(x.test)}
-            later = [c for c in ast.walk(f.node) if isinstance(c, ast.Call) and norm(c.func) == 'from_str'
-                     and c.lineno > x.lineno and id(c) not in in_test and c.args and isinstance(c.args[0], ast.Name)]
-            roles = {c.args[0].id: norm(c.args[2]) for c in later if len(c.args) > 2}
-            if names == want and roles.get(lo) == 'round_floor' and roles.get(up) == 'round_ceiling':
-                ordered = x
-    if ordered is not None or minmax:
-        run.ok('C-R7', "'x[y,z]e': the two literals are ordered by value before the directed conversions")
+    why = enclosure_of_both(f, holder)
+    if why is None:
+        run.ok('C-R7', "'x[y,z]e': both literals are converted downward and upward at the target precision; the lower "
+               "endpoint is the smaller floor, the upper endpoint the larger ceiling")
     else:
         run.fail(Finding('C-R7', LIBMPI, 'mpi_from_str', norm(split[0]),
-                         "in the form 'x[y,z]e' the two literals are not ordered by value before the lower one is "
-                         "rounded down and the upper one up: one of '-1.2[3,7]' / '-1.2[7,3]' (the second is what "
-                         "mpi_to_str prints) is read as an inverted interval that does not contain the denoted "
-                         "range", line=split[0].lineno))
+                         "in the form 'x[y,z]e' the result is not the enclosure of both literals (%s): the digit groups "
+                         "come in either order ('-1.2[3,7]' / '-1.2[7,3]', the second is what mpi_to_str prints), and "
+                         "a comparison of ROUNDED conversions cannot order literals that agree to that many bits "
+                         "(iv.mpf('0.5000000000000000000000000000[1,0]') was [1/2, 1/2])" % why, line=split[0].lineno))
     # the plain '[a, b]' case needs the closing bracket at the end of the string
     t = norm(plain_if.test) if plain_if is not None else ''
     if "[-1] == ']'" in t or "endswith(']')" in t:
@@ -313,6 +287,75 @@ def check_shared_prefix_sign(run, ix):
                          "a string that starts with '[' is always read as '[a, b]': '[4.0, 6.0]e-20' (printed by "
                          "mpi_to_str in 'diff' mode) gets the exponent on the upper endpoint only, and the lower "
                          "endpoint 4.0 lies above the denoted 4.0e-20", line=getattr(plain_if, 'lineno', None)))
+
+
+def enclosure_of_both(f, holder):
+    """None when the statements `holder` return (a, b) with a = min over BOTH literals of their round_floor
+    conversions at the function's precision and b = max of their round_ceiling conversions; else the reason.
+    Accepted spellings: min(...) / max(...) (also MIN / MAX) of the two conversions, or an initial conversion
+    replaced under `mpf_lt(other, a)` resp. `mpf_gt(other, b)`."""
+    prec = f.params[1]
+    rets = [x for st in holder for x in ast.walk(st) if isinstance(x, ast.Return) and isinstance(x.value, ast.Tuple)
+            and len(x.value.elts) == 2 and all(isinstance(e, ast.Name) for e in x.value.elts)]
+    if not rets:
+        return 'no `return a, b` of two names'
+    lo_name, up_name = [e.id for e in rets[-1].value.elts]
+    assigns = [x for st in holder for x in ast.walk(st) if isinstance(x, ast.Assign) and len(x.targets) == 1
+               and isinstance(x.targets[0], ast.Name)]
+    conv = {}                                   # name -> (literal, mode)
+    for a in assigns:
+        v = a.value
+        if isinstance(v, ast.Call) and norm(v.func) == 'from_str' and len(v.args) == 3 and \
+                isinstance(v.args[0], ast.Name) and norm(v.args[1]) == prec:
+            conv.setdefault(a.targets[0].id, set()).add((v.args[0].id, norm(v.args[2])))
+
+    def sources(name, mode, cmp_ok):
+        """literals whose `mode` conversion can end up in `name`; None if something else can"""
+        lits = set()
+        for a in assigns:
+            if a.targets[0].id != name:
+                continue
+            v = a.value
+            vals = [v]
+            if isinstance(v, ast.Call) and norm(v.func) in ('min', 'max', 'MIN', 'MAX'):
+                want = ('min', 'MIN') if mode == 'round_floor' else ('max', 'MAX')
+                if norm(v.func) not in want:
+                    return None
+                vals = list(v.args)
+            else:
+                # a replacement must sit under the right comparison
+                par = getattr(a, '_parent', None)
+                if isinstance(par, ast.If) and a in par.body:
+                    t = par.test
+                    if not (isinstance(t, ast.Call) and norm(t.func) in cmp_ok and len(t.args) == 2):
+                        return None
+                    order = [norm(x) for x in t.args]
+                    if cmp_ok[norm(t.func)] == 'new-first':
+                        if order != [norm(v), name]:
+                            return None
+                    elif order != [name, norm(v)]:
+                        return None
+            for x in vals:
+                if isinstance(x, ast.Call) and norm(x.func) == 'from_str' and len(x.args) == 3 and \
+                        isinstance(x.args[0], ast.Name) and norm(x.args[1]) == prec and norm(x.args[2]) == mode:
+                    lits.add(x.args[0].id)
+                elif isinstance(x, ast.Name) and x.id in conv and all(m == mode for _, m in conv[x.id]):
+                    lits |= {l for l, _ in conv[x.id]}
+                elif isinstance(x, ast.Name) and x.id == name:
+                    continue
+                else:
+                    return None
+        return lits
+    lo = sources(lo_name, 'round_floor', {'mpf_lt': 'new-first', 'mpf_gt': 'old-first'})
+    up = sources(up_name, 'round_ceiling', {'mpf_gt': 'new-first', 'mpf_lt': 'old-first'})
+    if lo is None:
+        return 'the lower endpoint is not the minimum of round_floor conversions at `%s`' % prec
+    if up is None:
+        return 'the upper endpoint is not the maximum of round_ceiling conversions at `%s`' % prec
+    if len(lo) < 2 or lo != up:
+        return 'the lower endpoint is taken from %s and the upper one from %s, not each from both literals' \
+            % (sorted(lo), sorted(up))
+    return None
 
 
 def check_interval_forms(run, ix):
@@ -470,11 +513,60 @@ def check_literal_length(run, ix):
         if any(f.rule == 'L-R1' for f in run.findings):
             return                      # the unguarded sites are the report
         raise AnalysisError('str_to_int (chunked conversion of digit strings) not found')
-    rec = [c for c in _walk_own(h.node) if isinstance(c, ast.Call) and norm(c.func) == 'str_to_int'
-           and c.args and isinstance(c.args[0], ast.Subscript) and isinstance(c.args[0].slice, ast.Slice)]
-    if len(rec) >= 2:
-        run.ok('L-R1', 'str_to_int recurses on slices of its argument (%d calls)' % len(rec))
+    # the splitter: the helper itself or the module-level function it hands its text to
+    splitter = None
+    for cand in [h] + [g for g in (ix.find_func(LIBMPF, norm(c.func)) for c in _walk_own(h.node)
+                                    if isinstance(c, ast.Call) and isinstance(c.func, ast.Name)) if g is not None]:
+        rec = [c for c in _walk_own(cand.node) if isinstance(c, ast.Call) and norm(c.func) == cand.qualname
+               and c.args and isinstance(c.args[0], ast.Subscript) and isinstance(c.args[0].slice, ast.Slice)]
+        if len(rec) >= 2:
+            splitter = cand
+            break
+    if splitter is not None:
+        run.ok('L-R1', '%s recurses on slices of its argument (%d calls)' % (splitter.qualname, len(rec)))
     else:
         run.fail(Finding('L-R1', LIBMPF, 'str_to_int', 'def str_to_int', 'the helper does not split long strings',
                          line=h.lineno))
+        return
     run.stats['int_of_text_sites'] = n
+    # L-R2: the pieces are cut by CHARACTER positions and scaled by base**(number of characters): the text must be
+    # digits only when it is cut.  A digit separator (accepted by int() and by the short path) shifts the scale by
+    # one place per separator; a sign or blank at the end of a piece is accepted by int().
+    run.rule('L-R2', floor=2, desc='a long digit string is free of separators, signs and blanks when it is cut into pieces')
+    sp = splitter.params[0]
+    outside = [c for f2 in ix.module(LIBMPF).funcs.values() if f2 is not splitter for c in _walk_own(f2.node)
+               if isinstance(c, ast.Call) and norm(c.func) == splitter.qualname]
+    if splitter is h:
+        callers = [(h, None)]
+    else:
+        callers = [(ix.find_func(LIBMPF, 'str_to_int'), c) for c in outside]
+    ok_sep = True
+    for caller, call in callers:
+        text = norm(call.args[0]) if call is not None else sp
+        strips = [a for a in _walk_own(caller.node) if isinstance(a, ast.Assign) and norm(a.targets[0]) == text and
+                  isinstance(a.value, ast.Call) and isinstance(a.value.func, ast.Attribute) and
+                  a.value.func.attr == 'replace' and norm(a.value.func.value) == text and
+                  [norm(z) for z in a.value.args] == ["'_'", "''"] and
+                  (call is None or a.lineno < call.lineno)]
+        if splitter is h and strips:
+            # must come before the recursive cut
+            cut = min(c.lineno for c in rec)
+            strips = [a for a in strips if a.lineno < cut]
+        if strips:
+            run.ok('L-R2', '%s removes digit separators before the text is cut: `%s`' % (caller.qualname, norm(strips[0])))
+        else:
+            ok_sep = False
+            run.fail(Finding('L-R2', LIBMPF, caller.qualname, norm(call) if call is not None else 'def %s' % caller.qualname,
+                             'a long digit string is cut at character positions with its digit separators still in it: '
+                             'each `_` in the low piece shifts the high piece by one decimal place (a 602-digit numerator '
+                             'with one separator over 10**601 converts to 10 instead of 1)',
+                             line=(call.lineno if call is not None else caller.lineno)))
+    guards = [x for x in _walk_own(splitter.node) if isinstance(x, ast.If) and
+              any(isinstance(b, ast.Raise) for b in x.body) and "'+-'" in norm(x.test) and 'isspace' in norm(x.test)]
+    if guards and guards[0].lineno < min(c.lineno for c in rec):
+        run.ok('L-R2', '%s rejects a piece that begins with a sign or has blanks at its ends' % splitter.qualname)
+    else:
+        run.fail(Finding('L-R2', LIBMPF, splitter.qualname, 'def %s' % splitter.qualname,
+                         'a piece of a long digit string goes to int() as it is: int() accepts a sign and blanks at the '
+                         'ends of a piece, so a malformed long literal (a sign in the middle) is converted instead of '
+                         'rejected', line=splitter.lineno))
